@@ -12,6 +12,7 @@ func init() {
 	verifHarnesses["HarnessC19Headers"] = HarnessC19Headers
 	verifHarnesses["HarnessC19Create"] = HarnessC19Create
 	verifHarnesses["HarnessC19Errors"] = HarnessC19Errors
+	verifHarnesses["HarnessC19Boundary"] = HarnessC19Boundary
 }
 
 // c19Norm is the documented header normalisation: lower-cased, every character outside a-z
@@ -40,10 +41,14 @@ func c19Field(name string, maxLen int) string {
 	return string(b)
 }
 
+var c19LongHeaderUsed bool
+
 func c19Header(name string) string {
 	n := 1
-	if verifTier() > 0 {
+	if verifTier() > 0 && !c19LongHeaderUsed {
+		// thorough: the first header may have two bytes
 		n = 1 + verifChoice(name+"len", 2)
+		c19LongHeaderUsed = true
 	}
 	b := verifBytes(name, n)
 	for _, c := range b {
@@ -103,6 +108,7 @@ func c19Compare(tag string, got, want *updog.Index, names []string, recs [][]str
 }
 
 func HarnessC19Create() {
+	c19LongHeaderUsed = false
 	ncols := 1 + verifChoice("ncols", 2)
 	nrecs := verifChoice("nrecs", 2+verifTier())
 	maxField := 1
@@ -252,5 +258,62 @@ func HarnessC19Headers() {
 		verifAssert(ok && n == 1, "C19: the field under a normalised header is not queryable")
 		idx.Close()
 	}
+	verifReach("end")
+}
+
+// HarnessC19Boundary: record counts around the --big writer's 1000-row batches (concrete
+// records, two columns): both modes must produce the index of the reference writer.
+func HarnessC19Boundary() {
+	k := 1
+	if verifTier() > 0 {
+		k += verifChoice("thousands", 2)
+	}
+	n := 1000*k - 1 + verifChoice("around-batch", 4) // 999..1002 (thorough: also 1999..2002)
+	names := []string{"t", "a"}
+	recs := make([][]string, n)
+	for i := range recs {
+		recs[i] = []string{string([]byte{'r', byte('0' + i/1000), byte('0' + i/100%10), byte('0' + i/10%10), byte('0' + i%10)}), []string{"x", "y", ""}[i%3]}
+	}
+	in := verifTempPath("c19b.csv")
+	verifCSV(in, append([][]string{{"T", "a"}}, recs...), -1)
+	refPath := verifTempPath("c19b_ref.updog")
+	rw := updog.NewIndexWriter(refPath)
+	for _, r := range recs {
+		if _, err := rw.AddRow(map[string]string{"t": r[0], "a": r[1]}); err != nil {
+			panic(err)
+		}
+	}
+	if err := rw.Flush(); err != nil {
+		panic(err)
+	}
+	want, err := updog.OpenIndex(refPath)
+	if err != nil {
+		panic(err)
+	}
+	// schema and row count are compared in full, per-record membership for the records around
+	// the batch boundaries and the ends
+	var probe [][]string
+	for _, i := range []int{0, 1, 998, 999, 1000, 1001, n - 2, n - 1} {
+		if i >= 0 && i < n {
+			probe = append(probe, recs[i])
+		}
+	}
+	for mode := 0; mode < 2; mode++ {
+		out := verifTempPath([]string{"c19b_normal.updog", "c19b_big.updog"}[mode])
+		tag := []string{"C19 normal mode", "C19 --big mode"}[mode] + " around the 1000-record batch"
+		err := createCmd(&globalConfig{}, &createConfig{outputFile: out, inputFile: in, big: mode == 1})
+		verifAssert(err == nil, tag+": a well-formed CSV was rejected")
+		if err != nil {
+			return
+		}
+		got, err := updog.OpenIndex(out)
+		verifAssert(err == nil, tag+": the created index cannot be opened")
+		if err != nil {
+			return
+		}
+		c19Compare(tag, got, want, names, probe)
+		got.Close()
+	}
+	want.Close()
 	verifReach("end")
 }
